@@ -67,7 +67,10 @@ func (dl *dialLimiter) freeFDToken() {
 	log.Debug("[limiter] freeing FD token", "waiting", len(dl.waitingOnFd), "fd_consuming", dl.fdConsuming)
 	dl.fdConsuming--
 
-	for len(dl.waitingOnFd) > 0 {
+	// Releasing the per-peer token of a cancelled waiter below may start
+	// another dial of that peer, which takes the FD token we just freed; the
+	// limit has to be re-checked before handing it to the next waiter.
+	for len(dl.waitingOnFd) > 0 && dl.fdConsuming < dl.fdLimit {
 		next := dl.waitingOnFd[0]
 		dl.waitingOnFd[0] = nil // clear out memory
 		dl.waitingOnFd = dl.waitingOnFd[1:]
